@@ -861,6 +861,9 @@ func (e *connectWireError) MarshalJSON() ([]byte, error) {
 		}
 		wire.Details = details
 	}
+	// Error text often quotes the input that caused it, which needn't be valid
+	// UTF-8; a Protobuf string must be, or the error can't be serialized at all.
+	wire.Message = strings.ToValidUTF8(wire.Message, "\uFFFD")
 	return (&protoJSONCodec{}).Marshal(wire)
 }
 
